@@ -2,6 +2,7 @@ package main
 
 import (
 	"fmt"
+	"io"
 	"math/rand"
 	"os"
 	"strconv"
@@ -75,6 +76,7 @@ type qosRun struct {
 	gate      *gate          // parks S's write loop at write.beforeLock (forced queue-full)
 	gated     bool           // the write loop is parked right now
 	gatedStep map[uint64]int // uid -> index of the step in which it was published while the loop was parked
+	fault     bool           // the step being executed runs with failing writes on S\'s connection
 	padTo     int            // payload length of the next publishes (write-buffer bursts)
 	wbuf      int            // write-buffer histories: ClientNetWriteBufferSize in force
 }
@@ -211,6 +213,9 @@ func (q *qosRun) observe(op sx.L, dropUid uint64) sx.L {
 		q.straddle = true
 	}
 	obs := sx.L{pkts, fwds, sx.Bool(closed), drops, snap}
+	if q.fault {
+		obs = append(obs, sx.N(1)) // every write to S's connection failed during this step
+	}
 	if q.trace {
 		fmt.Fprintf(os.Stderr, "  %s\n     -> %s\n", sx.String(op), sx.String(obs))
 	}
@@ -408,6 +413,24 @@ func (q *qosRun) gatedBurst(n int) {
 	}
 }
 
+// faulty runs one client step f with every write to S's connection failing (MemConn.WriteErr: broken pipe at the
+// moment the broker answers), then drops the connection if the broker has not done so and reconnects with clean
+// start 0.  The broker has read and handled the client's packet (the step waits for quiescence); only its
+// answer is lost.
+func (q *qosRun) faulty(c qosCfg, f func()) {
+	if !q.sConnected() {
+		return
+	}
+	q.fault = true
+	q.s.MC.WriteErr = io.ErrClosedPipe
+	f()
+	q.fault = false
+	if q.sConnected() {
+		q.disconnectS(false)
+	}
+	q.reconnect(c, false)
+}
+
 // wbufBurst: one publisher, one topic, one QoS, payload sizes around the write-buffer size, all queued for S while
 // its write loop is parked, so that the loop then runs with a non-empty queue and goes through WritePacket's
 // buffering branches.  What S receives is reported in WIRE ORDER in one closing step (these histories are judged by
@@ -584,6 +607,7 @@ type qosCfg struct {
 	script  string
 	steps   int
 	sleepy  bool
+	faults  bool   // random steps include client packets whose answer cannot be written
 	gate    bool   // MaximumClientWritesPending = 1 and forced queue-full bursts
 	wbuf    int    // > 0: write-buffer bursts with this ClientNetWriteBufferSize (monitor-only histories)
 	word    []byte // exhaustive stream: a word over the symbolic alphabet a..g
@@ -743,6 +767,24 @@ func (q *qosRun) runScript(c qosCfg) {
 		q.publishP(0, 0, 1, 0)
 		q.publishP(0, 0, 1, 0)
 		q.ackS(packets.Puback, 1, 0)
+	case "c09f": // the PUBREL answering S's PUBREC cannot be written: the session must still hold (and resend) PUBREL
+		q.publishP(0, 0, 2, 0)
+		if len(q.pend) > 0 {
+			q.faulty(c, func() { q.ackNext(0, 0) })
+		}
+		for i := 0; i < 2 && len(q.pend) > 0; i++ {
+			q.ackNext(0, 0)
+		}
+	case "c09g": // the PUBCOMP answering S's PUBREL cannot be written
+		q.publishS(2, 5, false, 0)
+		q.faulty(c, func() { q.ackS(packets.Pubrel, 5, 0) })
+		q.ackS(packets.Pubrel, 5, 0)
+	case "c08f": // the PUBREC answering S's QoS 2 PUBLISH cannot be written: recorded, never forwarded
+		q.faulty(c, func() { q.publishS(2, 5, false, 0) })
+		if len(q.open2) > 0 {
+			q.publishS(2, 5, true, q.open2[0].uid)
+			q.ackS(packets.Pubrel, 5, 0)
+		}
 	case "c10q": // queue-full rollback while the publisher's identifier collides with one in flight to S
 		q.publishP(0, 0, 1, 0)
 		q.publishP(0, 0, 2, 0)
@@ -815,6 +857,21 @@ func (q *qosRun) symbolic(c qosCfg, sym byte) {
 
 func (q *qosRun) randomStep(c qosCfg) {
 	r := q.rng
+	if c.faults && q.sConnected() && r.Intn(8) == 0 {
+		// a client packet whose answer the broker fails to write
+		switch k := r.Intn(6); {
+		case k < 3 && len(q.pend) > 0:
+			q.faulty(c, func() { q.ackNext(r.Intn(len(q.pend)), 0) })
+		case k < 4 && len(q.open2) > 0:
+			o := q.open2[r.Intn(len(q.open2))]
+			q.faulty(c, func() { q.ackS(packets.Pubrel, o.pid, 0) })
+		case k < 5:
+			q.faulty(c, func() { q.publishS(byte(1+r.Intn(2)), q.freshPid(), false, 0) })
+		default:
+			q.faulty(c, func() { q.pingS() })
+		}
+		return
+	}
 	if !q.sConnected() {
 		switch k := r.Intn(10); {
 		case k < 4:
@@ -922,7 +979,7 @@ func engQos(seed int64, tier string, args []string, out *sx.Out) {
 		}
 	}
 	rng := rand.New(rand.NewSource(seed))
-	scripts := []string{"c08", "c08r", "c09", "c10a", "c10b", "c10c", "c10d", "c11a", "c11b", "c11c", "c11d", "c11e", "c11f",
+	scripts := []string{"c08", "c08r", "c08f", "c09", "c09f", "c09g", "c10a", "c10b", "c10c", "c10d", "c11a", "c11b", "c11c", "c11d", "c11e", "c11f",
 		"c11g", "c11h", "c12a", "c12b"}
 	nrandom := 230
 	if tier == "thorough" {
@@ -953,7 +1010,7 @@ func engQos(seed int64, tier string, args []string, out *sx.Out) {
 			if s == "c12a" || s == "c12b" || s == "c09" {
 				c.srvrm = 4
 			}
-			if s == "c08" || s == "c08r" || s == "c11g" {
+			if s == "c08" || s == "c08r" || s == "c11g" || s == "c08f" || s == "c09f" || s == "c09g" {
 				c.srvrm = 2
 			}
 			if s == "c10d" {
@@ -978,6 +1035,19 @@ func engQos(seed int64, tier string, args []string, out *sx.Out) {
 			}
 			emit(c)
 		}
+	}
+	// fault injection inside random histories
+	nf := 16
+	if tier == "thorough" {
+		nf = 400
+	}
+	for i := 0; i < nf && only == ""; i++ {
+		c := qosCfg{maxpid: 8, maxinfl: 8192, srvrm: uint16(2 + rng.Intn(3)), v5: i%4 != 3, sei: 300,
+			rm: uint16(2 + rng.Intn(3)), subqos: 2, steps: 30, faults: true}
+		if !c.v5 {
+			c.sei, c.rm = 0, 0
+		}
+		emit(c)
 	}
 	// forced queue-full (write loop parked, outbound queue of one): scripted, then inside random histories
 	nq := 6
